@@ -275,38 +275,3 @@ macro_rules! h_version_from_str_neigh {
         }
     };
 }
-
-// native replay body for validators decided by engine E2: the real check_fn of CHARACTER_DATA[entry] against the generated
-// reference automaton of the same entry (dispatch table generated by run_check.py)
-#[cfg(not(kani))]
-pub fn n_c19_validator() {
-    let entry = vk::any_usize();
-    let len = vk::any_usize();
-    let mut v = std::vec::Vec::new();
-    let mut i = 0;
-    while i < len {
-        v.push(vk::any_u8());
-        i += 1;
-    }
-    let (f, r) = n_c19_lookup(entry);
-    vk_check!(f(&v) == r(&v), "validator and published regex disagree");
-}
-
-// translator validation for engine E2 (spec crate): the real validators on concrete inputs
-#[cfg(all(test, not(kani)))]
-#[test]
-fn verif_oracle_spec() {
-    let Ok(inp) = std::env::var("VERIF_ORACLE_IN") else { return; };
-    let out_path = std::env::var("VERIF_ORACLE_OUT").unwrap();
-    let text = std::fs::read_to_string(inp).unwrap();
-    let mut out = std::string::String::new();
-    for line in text.lines() {
-        let f: std::vec::Vec<&str> = line.split_whitespace().collect();
-        if f.len() < 3 || f[0] != "re" { continue; }
-        let entry: usize = f[1].parse().unwrap();
-        let b: std::vec::Vec<u8> = if f[2] == "-" { std::vec::Vec::new() } else { (0..f[2].len() / 2).map(|i| u8::from_str_radix(&f[2][2 * i..2 * i + 2], 16).unwrap()).collect() };
-        let (v, _r) = n_c19_lookup(entry);
-        out.push_str(if v(&b) { "1\n" } else { "0\n" });
-    }
-    std::fs::write(out_path, out).unwrap();
-}
